@@ -206,6 +206,16 @@ static std::string relProgram(const char *tok, long D, int slack) {
 static std::string absProgram(const char *tok, long W, int slack) {
   std::ostringstream o; o << tok << " L\n"; long F = 4 * W - (minLen(W) + slack); if (F < 0) F = 0; filler(o, F); o << "L\nDATA 7\n"; return o.str();
 }
+// chain of forward references in which growth propagates backwards one reference per layout pass (n + 2 passes):
+//   R1 [7] R2 [7] L1 R3 [7] L2 ... Rn [7] L(n-1) [9] Ln      Ri = `tok Li`, [k] = k one-byte instructions
+// with one-byte references Ri..Li spans 15 bytes, except Rn..Ln which spans 16
+static std::string chainProgram(const char *tok, int n) {
+  std::ostringstream o; auto fill = [&](int k) { for (int i = 0; i < k; i++) o << "LDBC 0\n"; };
+  o << tok << " L1\n"; fill(7); o << tok << " L2\n"; fill(7);
+  for (int i = 3; i <= n; i++) { o << "L" << (i - 2) << "\n" << tok << " L" << i << "\n"; fill(7); }
+  o << "L" << (n - 1) << "\n"; fill(9); o << "L" << n << "\nLDAC 0\n";
+  return o.str();
+}
 static std::vector<long> directedValues(long limit) {
   std::vector<long> v;
   for (int k = 0; k <= 5; k++) for (long m = 1; m <= 15; m++) for (long d = -2; d <= 2; d++) { long x = m * (1L << (4 * k)) + d; if (x >= 0 && x <= limit) v.push_back(x); }
@@ -226,6 +236,7 @@ int main(int argc, char **argv) {
       if (!v.accepted) { if (!v.ok) { if (!bad5) { first5 = src; why5 = v.why; } bad5++; } return; }
       if (!v.ok) { if (v.c05 == 1) { if (!bad5) { first5 = src; why5 = v.why; } bad5++; } else { if (!bad17) { first17 = src; why17 = v.why; } bad17++; } }
     };
+    if (!one) for (int n : {3, 4, 5, 7, 8, 9, 10, 12, 16, 17, 25, 33, 40, 64, 100}) run(chainProgram(REL[n % 4], n));   // layouts needing n + 2 passes
     for (long x : vals) {
       const char *rt = REL[rot % 7], *at = ABS[rot % 5]; rot++;
       if (!one || atol(argv[2]) >= 0) run(relProgram(rt, x, 0));
